@@ -283,7 +283,7 @@ def run(chk):
     _component_run(chk)
     from harness import syscheck
     core.extra_props_phase(chk, "C09_system")
-    syscheck.system_phase(chk, "C09", {'plain': 5, 'racing_try': 2, 'cancel': 2, 'sbatchfail': 1, 'resubmit': 3}, n_quick=140, n_thorough=2500, also=())
+    syscheck.system_phase(chk, "C09", {'plain': 5, 'racing_try': 2, 'cancel': 2, 'sbatchfail': 1, 'resubmit_nofault': 3}, n_quick=140, n_thorough=2500, also=())
 
 
 def replay(path):
